@@ -83,6 +83,15 @@ Theorem C20_bounded_block_end_value : forall r w k,
   (w_rem w = Some k -> w_block_end w = (w_set_rem w None, Ok (Z.max 0 k))).
 Proof. exact (fun r w k => conj (block_end_value_r r k) (block_end_value_w w k)). Qed.
 
+(* ---- both readers agree: for EVERY byte string, every block length >= 0 and every program of
+   primitive reads (bit, nbits n, uint_lit n, uint, sint, bounded blocks read with the bounded
+   primitives and closed as the validator / the deserialiser close them): same values, same
+   tell() after every primitive, same EOF class, same final position.  `blocks_nonneg p` =
+   all block lengths >= 0 and no PAlign (byte_align vs SerDes.byte_align is covered by the
+   correspondence run and the oracle only). ---- *)
+Theorem C20_readers_agree : forall f p, blocks_nonneg p -> r_run p (r_init f 0) = d_run p (d_init f 0).
+Proof. exact readers_agree. Qed.
+
 (* ---- negative block lengths: the readers differ (read_bitb tests bits_left == 0); the
    validator cannot produce one: its three assignments to bits_left are a read_nbits value,
    a difference guarded by InvalidSliceYLength, and 8 * scaler * read_uint_lit (harness AST scan) ---- *)
@@ -95,7 +104,7 @@ Proof. exact d_block_lengths_nonneg. Qed.
 
 (* non-vacuity *)
 Example C20_example :
-  uint_bits 5 = [false; true; false; true; true] /\
-  r_read_uint (r_init [88] 0) = (mkR [88] 1 2 (Some 88) None, Ok 5) /\
-  d_read_sint (d_init [92] 0) = (mkD [92] 1 1 (Some 92) 0 None, Ok (-5)).
+  uint_bits 5 = [false; true; false; false; true] /\
+  r_read_uint (r_init [72] 0) = (mkR [72] 1 2 (Some 72) None, Ok 5) /\
+  d_read_sint (d_init [76] 0) = (mkD [76] 1 1 (Some 76) 0 None, Ok (-5)).
 Proof. vm_compute. repeat split; reflexivity. Qed.
